@@ -1051,7 +1051,7 @@ impl<R: RefCounter, PR: PathRefCounter, H: Header> Memory<R, PR, H> {
         } => {
           if remove_on_drop.load(Ordering::Acquire) {
             let _ = Box::from_raw(*buf);
-            core::ptr::drop_in_place(file);
+            // `file` is closed when `self` is dropped (closing it here as well would close the descriptor twice)
             let _ = std::fs::remove_file(path.as_path());
             return;
           }
@@ -1068,7 +1068,7 @@ impl<R: RefCounter, PR: PathRefCounter, H: Header> Memory<R, PR, H> {
         } => {
           if remove_on_drop.load(Ordering::Acquire) {
             let _ = Box::from_raw(*buf);
-            core::ptr::drop_in_place(file);
+            // `file` is closed when `self` is dropped (closing it here as well would close the descriptor twice)
             let _ = std::fs::remove_file(path.as_path());
             return;
           }
